@@ -14,7 +14,7 @@ func init() {
 	register(&propertyDef{
 		id:    "C10",
 		title: "preparation builds exactly the dependency graph the workflow text implies",
-		rules: []ruleFunc{c10R0, c10R1, c10R1b, c10R2, c10R3, c10R4, c10R5},
+		rules: []ruleFunc{c10R0, c10R1, c10R1b, c10R2, c10R3, c10R4, c10R5, c10R6},
 		decided: "every reference and every stage order becomes an edge (R0 = C02.R1-R3); the only non-nil workflow Prepare returns is dominated by the success edges of every preparation stage and by the acyclicity test (R1); every error obtained in the prepare path of the workflow package is tested and propagated (R1b); " +
 			"each tag maps to its dependency kind: expressions And, one-of group And with Or options, optional CompletionAnd/Optional by WaitForCompletion, stage->output And (R2); only the tabled prepare functions add nodes or connections, nothing in the run path does (R3); a missing required stage input and an incompatible provided one are errors (R4). The parse/prepare paths write no engine-lifetime object (providers, registry, executor): preparation does not depend on earlier preparations (R5).",
 		notDecided: "correctness of Expression.Dependencies / Type, of dgraph.HasCycles and of ValidateCompatibility (dependencies).",
@@ -522,4 +522,38 @@ func c10R5(c *Ctx) {
 	if n == 0 {
 		c.ok(rule, "stateless-prepare", "-", fmt.Sprintf("no write to an engine-lifetime object in %d parse/prepare functions", len(scope)), true)
 	}
+}
+
+// C10.R6 the YAML conversion never drops tags.
+func c10R6(c *Ctx) {
+	const rule = "C10.R6"
+	c.explain("C10.R6 the conversion of the workflow's YAML tree into expression objects (yamlBuildExpressions and everything it calls in the workflow package) never calls yaml.Node.Raw(), which returns the plain Go value of a whole sub-tree WITHOUT its tags: a tagged scalar below such a node (`wait_for: [ !expr … ]`) would arrive as a literal string — no edge, no check against the data model, no typing. Containers are converted element by element (C02.R7 checks the loops)")
+	root := c.Fn("workflow.yamlBuildExpressions")
+	if root == nil {
+		return
+	}
+	seen := map[*ssa.Function]bool{root: true}
+	todo := []*ssa.Function{root}
+	n := 0
+	for i := 0; i < len(todo); i++ {
+		g := todo[i]
+		eachInstr(g, func(r instrRef) {
+			cc := callCommon(r.I)
+			if cc == nil {
+				return
+			}
+			if cc.IsInvoke() && cc.Method.Name() == "Raw" && strings.HasSuffix(cc.Value.Type().String(), "internal/yaml.Node") {
+				n++
+				c.bad(rule, fmt.Sprintf("raw-value@%s#%d", c.fnName(g), n), c.instrPos(r.I), "the YAML conversion takes the untagged plain value (Node.Raw()) of a node: expression tags below it are lost, so the references they hold are neither wired nor checked")
+			}
+			for _, callee := range c.CG().Callees(r.I) {
+				if !seen[callee] && pkgPathOf(callee) == pkgWorkflow && len(callee.Blocks) > 0 {
+					seen[callee] = true
+					todo = append(todo, callee)
+				}
+			}
+		})
+	}
+	c.ok(rule, "scanned", "-", fmt.Sprintf("%d functions of the YAML conversion, no use of Node.Raw()", len(todo)), true)
+	c.minCount(rule, "functions of the YAML conversion", len(todo), 3)
 }
